@@ -5,6 +5,7 @@ package main
 import (
 	"bytes"
 	"fmt"
+	"github.com/evolbioinfo/goalign/io/phylip"
 	"math/rand"
 	"os"
 	"os/exec"
@@ -216,13 +217,42 @@ func c04(args []string) error {
 					}
 					os.WriteFile(inf, []byte(sb.String()), 0644)
 					cres := result{outN: []string{}, outS: []string{}, ints: []int{}}
-					cmd := exec.Command(bin, "subseq", "-i", inf, fmt.Sprintf("--start=%d", s), fmt.Sprintf("--length=%d", l), "--ref-seq", name)
+					// half of the time the input holds the alignment twice (Phylip stream): every alignment of the file gets
+					// the window the user asked for
+					twice := r.Intn(2) == 0
+					args := []string{"subseq", "-i", inf, fmt.Sprintf("--start=%d", s), fmt.Sprintf("--length=%d", l), "--ref-seq", name}
+					if twice {
+						if a2, e2 := mkAlign(alpha, names, seqs); e2 == nil {
+							one := phylip.WriteAlignment(a2, false, false, false)
+							os.WriteFile(inf, []byte(one+one), 0644)
+							args = append(args, "-p")
+						} else {
+							twice = false
+						}
+					}
+					cmd := exec.Command(bin, args...)
 					var stdout bytes.Buffer
 					cmd.Stdout = &stdout
 					runErr := cmd.Run()
 					cres.class = OutOk
 					if runErr != nil {
 						cres.class = OutErr
+					} else if twice {
+						ch := align.AlignChannel{Achan: make(chan align.Alignment, 10)}
+						go phylip.NewParser(bytes.NewReader(stdout.Bytes()), false).ParseMultiple(&ch)
+						var outs []align.Alignment
+						for x := range ch.Achan {
+							outs = append(outs, x)
+						}
+						if ch.Err != nil || len(outs) != 2 {
+							cres.class = "BadOutput"
+						} else {
+							cres.outN, cres.outS = alignContent(outs[0])
+							n2, s2 := alignContent(outs[1])
+							if fmt.Sprint(n2) != fmt.Sprint(cres.outN) || fmt.Sprint(s2) != fmt.Sprint(cres.outS) {
+								cres.outN, cres.outS = []string{"<the second alignment of the file got another window>"}, []string{""}
+							}
+						}
 					} else if al, pe := fasta.NewParser(bytes.NewReader(stdout.Bytes())).Parse(); pe == nil {
 						cres.outN, cres.outS = alignContent(al)
 					} else {
